@@ -1484,7 +1484,10 @@ class Interp:
             if isinstance(base, dict):
                 base[self.lib.dict_key(self, base, key)] = value
             elif isinstance(base, list):
-                base[key] = value
+                if isinstance(key, slice):
+                    base[key] = list(self.lib.iterate(self, value))      # x[i:j] = <any iterable>
+                else:
+                    base[key] = value
             elif isinstance(base, Vec) and getattr(base, "readonly", False):
                 raise SymRaise("ValueError", "assignment destination is read-only")
             elif isinstance(base, Vec) and isinstance(key, int):
